@@ -13,3 +13,16 @@ pub assume_specification<T, U, F: FnOnce(T) -> U>[ Option::<T>::map_or ](o: Opti
     ensures o is None ==> r == default, o is Some ==> f.ensures((o->Some_0,), r);
 pub assume_specification<'a, T: Copy>[ Option::<&'a T>::copied ](o: Option<&'a T>) -> (r: Option<T>)
     ensures r == match o { Some(x) => Some(*x), None => None };
+// (not used by the code as it is; specified so that a refactoring through them is decided instead of rejected)
+pub assume_specification<T, E, F: FnOnce(T) -> bool>[ Result::<T, E>::is_ok_and ](res: Result<T, E>, f: F) -> (r: bool)
+    requires res is Ok ==> f.requires((res->Ok_0,)),
+    ensures res is Err ==> !r, res is Ok ==> f.ensures((res->Ok_0,), r);
+pub assume_specification<T, E, F: FnOnce(E) -> bool>[ Result::<T, E>::is_err_and ](res: Result<T, E>, f: F) -> (r: bool)
+    requires res is Err ==> f.requires((res->Err_0,)),
+    ensures res is Ok ==> !r, res is Err ==> f.ensures((res->Err_0,), r);
+pub assume_specification<T, F: FnOnce(T) -> bool>[ Option::<T>::is_some_and ](o: Option<T>, f: F) -> (r: bool)
+    requires o is Some ==> f.requires((o->Some_0,)),
+    ensures o is None ==> !r, o is Some ==> f.ensures((o->Some_0,), r);
+pub assume_specification<T, F: FnOnce(T) -> bool>[ Option::<T>::is_none_or ](o: Option<T>, f: F) -> (r: bool)
+    requires o is Some ==> f.requires((o->Some_0,)),
+    ensures o is None ==> r, o is Some ==> f.ensures((o->Some_0,), r);
